@@ -524,7 +524,6 @@ pub fn compute_grid_layout<Tree: LayoutGridContainer>(
         // Position hidden child
         if child_style.box_generation_mode() == BoxGenerationMode::None {
             drop(child_style);
-            tree.set_unrounded_layout(child, &Layout::with_order(order));
             tree.perform_child_layout(
                 child,
                 Size::NONE,
@@ -533,6 +532,9 @@ pub fn compute_grid_layout<Tree: LayoutGridContainer>(
                 SizingMode::InherentSize,
                 Line::FALSE,
             );
+            // Set the order after the hidden layout (which zeroes the whole layout) so that it does not depend
+            // on whether the child's hidden layout was served from the cache
+            tree.set_unrounded_layout(child, &Layout::with_order(order));
             order += 1;
             return;
         }
